@@ -13,7 +13,7 @@ from mc.props import C01
 
 LEVEL = "exploration"
 RTOL = 1e-7
-RTOL_EXT = 1e-5
+RTOL_EXT = 1e-6
 
 CLASSES = ["Cuboid", "Cylinder", "CylinderSegment", "Sphere", "Tetrahedron", "TetrahedronLeft", "TriangularMesh", "Triangle", "Circle",
            "Polyline", "Dipole"]
